@@ -95,7 +95,8 @@ Definition l0_ensure (x : tab0) (req : N) (shrink : bool) : tab0 * nat :=
   else (mkT0 (pairs x) bigger (aasort x), 0).
 
 (* Put(k, v): returns the previous value if the key was present *)
-Definition l0_put (x : tab0) (k v : Z) : tab0 * option Z :=
+Definition l0_put (x0 : tab0) (k v : Z) : tab0 * option Z :=
+  let x := if N.eqb (acap x0) 0 then mkT0 (pairs x0) dcap (aasort x0) else x0 in
   match a_get (pairs x) k with
   | Some old => (with_pairs x (l0_reposition (a_set (pairs x) k v) k), Some old)
   | None =>
@@ -391,6 +392,14 @@ Definition step0 (w : world0) (o : op) : world0 * out :=
       else (w, ONone)
   | ODestroy t =>
       if valid_t0 w t then (sett0 w t (mkT0 [] dcap true), ONone) else (w, ONone)
+  | OMoveCtor t u =>
+      if valid_t0 w t && valid_t0 w u then
+        if t =? u then (w, ONone)
+        else let b := gett0 w u in
+             (sett0 (sett0 w t (mkT0 (pairs b) (acap b) true)) u (mkT0 [] 0 (aasort b)), ONone)
+      else (w, ONone)
+  | OPrealloc t n =>
+      if valid_t0 w t then (sett0 w t (fst (l0_ensure (mkT0 [] 0 true) n false)), ONone) else (w, ONone)
   | OIterNew _ _ _ | OIterAt _ _ _ _ | OIterAdv _ | OIterRet _ | OIterSetBw _ _ | OIterDel _
   | OIterCopy _ _ | OIterShow _ => (w, ONone)
   end.
